@@ -55,7 +55,7 @@ def resize_src(ishape, oshape, ishift=None, oshift=None):
                 si = ishift[d] if ishift is not None else max(n // 2 - m // 2, 0)
                 so = oshift[d] if oshift is not None else max(m // 2 - n // 2, 0)
                 t = j - so
-                cnt = min(n - si, m - so)
+                cnt = max(0, min(n - si, m - so))
                 k = si + t
                 ok_d = 0 <= t < cnt
             if not ok_d:
